@@ -130,6 +130,59 @@ fn should_expansions(q: &Value) -> Vec<Value> {
   out
 }
 
+/// rewrite the nested value `c` so that the stored projection keeps its shape
+fn stabilise(doc: &mut Value) {
+  fn fix_r(r: &mut Value) -> bool {
+    // returns false when the property should be removed
+    match r {
+      Value::Array(a) => {
+        a.retain(|x| !x.is_null());
+        for o in a.iter_mut() {
+          if o.get("t").map(|t| t.is_null()).unwrap_or(true) {
+            o["t"] = json!("x");
+          }
+        }
+        !a.is_empty()
+      }
+      Value::Object(_) => {
+        if r.get("t").map(|t| t.is_null()).unwrap_or(true) {
+          r["t"] = json!("y");
+        }
+        true
+      }
+      _ => false,
+    }
+  }
+  fn fix_obj(o: &mut Value) {
+    if o.get("a").map(|a| a.is_null()).unwrap_or(true) {
+      o["a"] = json!("p0");
+    }
+    let keep = o.get_mut("r").map(fix_r);
+    if keep == Some(false) {
+      // (schema variant 2 requires `r`: keep it present and non-empty)
+      o["r"] = json!({"t": "z"});
+    }
+  }
+  let remove = match doc.get_mut("c") {
+    Some(Value::Array(a)) => {
+      a.retain(|x| !x.is_null());
+      a.iter_mut().for_each(fix_obj);
+      a.is_empty()
+    }
+    Some(o @ Value::Object(_)) => {
+      fix_obj(o);
+      false
+    }
+    Some(Value::Null) => false,
+    _ => false,
+  };
+  if remove {
+    if let Some(m) = doc.as_object_mut() {
+      m.remove("c");
+    }
+  }
+}
+
 fn contains_key_rec(v: &Value, key: &str) -> bool {
   match v {
     Value::Object(m) => m.iter().any(|(k, x)| k == key || contains_key_rec(x, key)),
@@ -192,6 +245,10 @@ impl Prop for C14 {
       _ => 0,
     };
     let n_batches = 2 + rng.below(4);
+    // half of the cases: nested values whose shape survives the stored projection (no null
+    // elements, every object has a stored non-null value, no empty child arrays), so that ANY change
+    // of a nested filter is reported under the general signature
+    let stable = rng.chance(1, 2);
     let mut version = 0u64;
     let mut batches = Vec::new();
     for _ in 0..n_batches {
@@ -200,7 +257,11 @@ impl Prop for C14 {
       for _ in 0..(1 + rng.below(5)) {
         version += 1;
         let id = format!("d{}", rng.below(8));
-        adds.push(gen_doc(rng, &id, version % 12, kind));
+        let mut d = gen_doc(rng, &id, version % 12, kind);
+        if stable {
+          stabilise(&mut d);
+        }
+        adds.push(d);
       }
       for _ in 0..rng.below(3) {
         dels.push(format!("d{}", rng.below(8)));
@@ -209,7 +270,7 @@ impl Prop for C14 {
     }
     let queries: Vec<Value> = (0..20).map(|_| json!({"query": gen_query(rng, positions, 1)})).collect();
     let filters: Vec<Value> = (0..20).map(|_| json!({"query": {"type": "match_all"}, "filter": gen_filter(rng, 2)})).collect();
-    json!({"mem": mem, "positions": positions, "schema_kind": kind, "batches": batches, "queries": queries, "filters": filters})
+    json!({"mem": mem, "positions": positions, "schema_kind": kind, "shape_stable_nested": stable, "batches": batches, "queries": queries, "filters": filters})
   }
 
   fn run_case(&self, drv: &mut Driver, case: &Value, s: &mut Summary) {
@@ -223,6 +284,9 @@ impl Prop for C14 {
     probes.extend(case["filters"].as_array().cloned().unwrap_or_default());
     s.count(if mem { "storage_mem" } else { "storage_fs" });
     s.count(&format!("schema_kind_{kind}"));
+    if case["shape_stable_nested"].as_bool().unwrap_or(false) {
+      s.count("case_shape_stable_nested_values");
+    }
 
     let store = Store::new(mem, positions);
     let index = match store.create(&schema) {
